@@ -251,6 +251,23 @@ const COLOURS: &[&str] = &[
 ];
 const CONTENTS: &[&str] = &["", "1", "HELLO WORLD", "https://example.com/?a=1&b=2", "h\u{e9}llo \u{1f680}", "0123456789012345678901234567890123456789"];
 
+/// image references as a web page passes them: the fixed list, random compositions, a base64 data URI wrapped at 76
+/// columns as `base64` / `openssl base64` print it (LF or CRLF, with or without a final line end), and references with
+/// stray white space around them. Whatever the string is, the wasm entry point must hand it to the renderer unchanged.
+fn wasm_image(rng: &mut Rng) -> String {
+    match rng.below(4) {
+        0 => (*rng.pick(crate::svgops::IMAGES)).to_string(),
+        1 => crate::svgops::rand_image(rng),
+        2 => {
+            let nl = *rng.pick(&["\n", "\r\n"]);
+            let lines = 1 + rng.below(5);
+            let body: Vec<String> = (0..lines).map(|i| "iVBORw0KGgoAAAANSUhEUgAAAAEAAAABCAYAAAAfFcSJAAAADUlEQVR42mNkYPhfDwAChwGA60e6kgAA".chars().cycle().skip(i * 7).take(76).collect()).collect();
+            format!("data:image/png;base64,{}{}", body.join(nl), if rng.chance(1, 2) { nl } else { "" })
+        }
+        _ => format!("{}{}{}", rng.pick(&[" ", "\n", "\t", ""]), rng.pick(crate::svgops::IMAGES), rng.pick(&["\n", " ", "\r\n", ""])),
+    }
+}
+
 pub fn gen(out: &mut crate::gen::Out, rng: &mut Rng, thorough: bool) {
     // corpus of the defects fixed in /repo (size without position, position without size, bad colours)
     out.job(|| wasm_line("A", &[WOp::ImageSize(5.0, 1.0), WOp::Image("x".into())]));
@@ -321,7 +338,7 @@ pub fn gen(out: &mut crate::gen::Out, rng: &mut Rng, thorough: bool) {
                 1 => WOp::ModuleColor((*rng.pick(COLOURS)).to_string()),
                 2 => WOp::Margin(if rng.chance(1, 10) { rng.range(0, 1_000_000) } else { rng.below(20) }),
                 3 => WOp::BackgroundColor((*rng.pick(COLOURS)).to_string()),
-                4 => WOp::Image((*rng.pick(crate::svgops::IMAGES)).to_string()),
+                4 => WOp::Image(wasm_image(rng)),
                 5 => WOp::ImageBgColor((*rng.pick(COLOURS)).to_string()),
                 6 => WOp::ImageBgShape(rng.below(3)),
                 7 => WOp::ImageSize(crate::svgops::rand_dyadic(rng, 1, 20), crate::svgops::rand_dyadic(rng, 0, 4)),
